@@ -106,6 +106,8 @@ def templates(cfg):
     T("pos.window_then_filter_on_window", lambda p, t: t >> p.mutate(y=rn(p, t)) >> p.alias("z") >> p.filter(p.C.y <= 2))
     T("pos.window_then_unrelated_filter", lambda p, t: t >> p.mutate(y=rn(p, t), s=t.b.sum()) >> p.filter(t.g > 0))
     T("pos.slice_alias_window", lambda p, t: t >> p.arrange(t.a.nulls_last(), t.b.nulls_last()) >> p.slice_head(2) >> p.alias("z") >> p.mutate(y=p.C.b.sum(), r=p.row_number(arrange=[p.C.b.nulls_last(), p.C.a.nulls_last()])))
+    T("pos.slice_then_nested_window", lambda p, t: t >> p.arrange(t.a.nulls_last(), t.b.nulls_last(), t.g.nulls_last()) >> p.slice_head(2) >> p.alias("z") >> p.mutate(y=p.C.b - p.C.b.max(partition_by=p.C.g), r=p.row_number(arrange=[p.C.a.nulls_last(), p.C.b.nulls_last(), p.C.g.nulls_last()]) * 2))
+    T("pos.slice_then_nested_agg_window", lambda p, t: t >> p.arrange(t.a.nulls_last(), t.b.nulls_last(), t.g.nulls_last()) >> p.slice_head(2) >> p.alias("z") >> p.mutate(y=p.when(p.C.b.sum() > 0).then(p.C.b.count()).otherwise(0)))
     T("pos.slice_then_window", lambda p, t: t >> p.arrange(t.a.nulls_last(), t.b.nulls_last()) >> p.slice_head(2) >> p.mutate(y=t.b.sum()))
     T("pos.window_then_slice", lambda p, t: t >> p.mutate(y=t.b.sum(partition_by=t.g)) >> p.arrange(t.a.nulls_last(), t.b.nulls_last()) >> p.slice_head(2))
     T("pos.window_select_rename", lambda p, t: t >> p.mutate(y=rn(p, t)) >> p.select(p.C.y, t.a) >> p.rename({"y": "a", "a": "y"}))
